@@ -107,17 +107,14 @@ def gen_cases(ctx):
     for n in (1, 2):
         for t in itertools.product(ALL, repeat=n):
             cases.append("N " + fmt(t))
-    # length 3 and 4: every multiset, each in one seeded random order (Normalize sees the sorted
-    # list, so the order only exercises sort.Sort).  The thorough tier sweeps ALL ordered lists of
-    # length <= 4 in run() (streamed, not kept in memory).
-    for t in itertools.combinations_with_replacement(ALL, 3):
-        t = list(t)
-        rng.shuffle(t)
+    # length 3: every ordered list.  Length 4: every multiset of well-formed ranges in one seeded
+    # random order (Normalize sees the sorted list, so the order only exercises sort.Sort) plus random
+    # ordered lists over all 49 values.  The thorough tier sweeps ALL ordered lists of length <= 4 in
+    # run() (streamed, not kept in memory).
+    for t in itertools.product(ALL, repeat=3):
         cases.append("N " + fmt(t))
     wfs = [r for r in ALL if wf(r)]
     four = list(itertools.combinations_with_replacement(wfs, 4))
-    if quick:
-        four = rng.sample(four, 12000)
     for t in four:
         t = list(t)
         rng.shuffle(t)
@@ -126,7 +123,7 @@ def gen_cases(ctx):
         t = [rng.choice(ALL) for _ in range(4)]
         cases.append("N " + fmt(t))
     # ---- N: seeded random longer lists ----
-    for _ in range(6000 if quick else 120000):
+    for _ in range(15000 if quick else 120000):
         n = rng.choice([5, 6, 7, 8, 10, 13, 16, 20, 30, 45])
         cases.append("N " + fmt(random_list(rng, n, rng.choice([8, 12, 20, 40, 100]))))
     for _ in range(60 if quick else 1500):                  # long: the non-insertion paths of sort.Sort
@@ -142,7 +139,7 @@ def gen_cases(ctx):
         good = [e for e in ent if 0 <= e[0] <= last and e[1] >= 0]
         for t in itertools.product(good, repeat=2):
             cases.append("D %d %s" % (last, fmt(t)))
-    for _ in range(8000 if quick else 150000):
+    for _ in range(20000 if quick else 150000):
         last = rng.choice([1, 2, 5, 6, 9, 12, 20, 50])
         n = rng.choice([2, 3, 3, 4, 5, 8, 12])
         t = random_list(rng, n, last + 1)
@@ -263,6 +260,35 @@ def sweep_all_ordered(ctx, run_impl):
     return bad, total
 
 
+def which_normalize(ctx, run_impl):
+    """Diagnostic only (no verdict): does the implementation under check behave like the model of
+    Normalize as it is in /repo (normalize_unrepaired) or like the repaired one?  Every ordered list
+    of <= 2 ranges and every multiset of 3 over low,hi in 0..4, plus the replyDelMsg witnesses."""
+    small = [(l, h) for l in range(5) for h in range(5)]
+    lines = ["N -"] + ["N " + fmt(t) for n in (1, 2) for t in itertools.product(small, repeat=n)]
+    lines += ["N " + fmt(t) for t in itertools.combinations_with_replacement(small, 3)]
+    lines += [w for w in WITNESSES]
+    lines += ["D 4 " + fmt(t) for t in itertools.product([(l, h) for l in range(5) for h in range(6)], repeat=2)]
+    lines = list(dict.fromkeys(lines))
+    rc, impl, _ = run_impl(lines)
+    if rc != 0:
+        return
+    unrep = [("U" if l[0] == "N" else "E") + l[1:] for l in lines]
+    rc1, m_new, _ = ctx.run_model("c04", lines)
+    rc2, m_old, _ = ctx.run_model("c04", unrep)
+    if rc1 != 0 or rc2 != 0:
+        return
+    a_new = sum(1 for i, m in zip(impl, m_new) if i == m)
+    a_old = sum(1 for i, m in zip(impl, m_old) if i == m)
+    differ = sum(1 for a, b in zip(m_new, m_old) if a != b)
+    ctx.notes.append("which Normalize is under check: on %d small requests (the two models differ on %d) the implementation "
+                     "agrees with the model of the repaired Normalize on %d and with the model of Normalize as in /repo "
+                     "(normalize_unrepaired) on %d" % (len(lines), differ, a_new, a_old))
+    ctx.coverage["impl_agrees_with_repaired_model"] = a_new
+    ctx.coverage["impl_agrees_with_unrepaired_model"] = a_old
+    ctx.coverage["which_normalize_cases"] = len(lines)
+
+
 def run(ctx):
     built = {}
 
@@ -293,9 +319,11 @@ def run(ctx):
         return 0, [res[l] for l in lines], err
 
     corpus = []
+    ok, _ = ctx.coq_build()
+    ok2, _ = ctx.build_runner() if ok else (False, "")
+    if ok and ok2 and not ctx.replay:
+        which_normalize(ctx, run_impl)
     if ctx.tier != "quick" and not ctx.replay:
-        ok, _ = ctx.coq_build()
-        ok2, _ = ctx.build_runner()
         if ok and ok2:
             t0 = time.time()
             bad, total = sweep_all_ordered(ctx, run_impl)
@@ -306,7 +334,7 @@ def run(ctx):
 
     purelib.run_pure(
         ctx, "c04", gen_cases, monitors, neighbours, nontrivial,
-        rule="Normalize pipeline (sort.Sort + Normalize): every ordered list of <=2 ranges and every multiset of 3 ranges with low,hi in 0..6 (ill-formed hi<=low included, compared with the model only), well-formed multisets of 4 (quick: 12000 sampled; thorough: all, plus a streamed sweep of ALL 5.9M ordered lists of 3 and 4), seeded random lists of 5..45 ranges and 60..400 ranges built from duplicate / touching / one-apart / nested / same-low / overlapping / single-on-last-id moves; replyDelMsg pipeline: every single entry with low in -1..7, hi in -1..8 for lastID 0..6, every valid pair for lastID 3 and 6 (thorough 0..6), seeded random requests of 2..12 entries with hi beyond lastID / hi == low / invalid entries, and requests around defaultMaxDeleteCount; non-trivial = at least one merge happened / multi-entry request accepted",
+        rule="Normalize pipeline (sort.Sort + Normalize): every ordered list of <=3 ranges with low,hi in 0..6 (ill-formed hi<=low included; the law is evaluated on well-formed input, the rest is compared with the model only), every well-formed multiset of 4 (thorough: plus a streamed sweep of ALL 5.9M ordered lists of 3 and 4), seeded random lists of 5..45 ranges and 60..400 ranges built from duplicate / touching / one-apart / nested / same-low / overlapping / single-on-last-id moves; replyDelMsg pipeline: every single entry with low in -1..7, hi in -1..8 for lastID 0..6, every valid pair for lastID 3 and 6 (thorough 0..6), seeded random requests of 2..12 entries with hi beyond lastID / hi == low / invalid entries, and requests around defaultMaxDeleteCount; non-trivial = at least one merge happened / multi-entry request accepted",
         trusted=["harness/ext/c04.go (calls the real sort.Sort(types.RangeSorter) + RangeSorter.Normalize of the repo under check)",
                  "harness/overlay/server/zz_verif_c04_test.go (calls the real Topic.replyDelMsg on a bare topic with a recording fake of store.Messages; soft delete by a non-presencer so that no hub is needed)",
                  "tools/props/c04.py law monitors (python restatement of normalize_exact / del_ranges_exact on sets of ints)",
